@@ -295,6 +295,6 @@ public:
   }
 };
 OwnHarness h;
-struct Reg { Reg() { register_harness(&h); } } reg;
+struct Reg { Reg() { register_harness(&h); hx::register_reclaimer_probes(); xsim::fn_probe("nikolaev_queue: a pusher lost the race to append its node (steal_init_value)", "16steal_init_value", true); xsim::fn_pair_probe("k-FIFO: committed() of a pusher overlaps advance_head", "9committed", "12advance_head", true); xsim::fn_pair_probe("queue destructor-side: two pushes overlap", "4pushE", "4pushE", true); } } reg;
 } // namespace
 XSIM_MAIN()
